@@ -93,6 +93,7 @@ func c04Decl(variant int, opts flags.Options) *decl.Decl {
 		{Field: "Odd", Long: "oddbase", Type: decl.TInt, Base: "99", Initial: 7},
 		{Field: "One", Long: "unarybase", Type: decl.TUint8, Base: "1", Initial: uint8(200)},
 		{Field: "NilCb", Long: "nilcb", Type: decl.TFuncS, NilFunc: true}, // a callback the program never assigned
+		{Field: "VarCb", Long: "varcb", Type: decl.TFuncVar},              // a variadic callback
 		{Field: "MapCh", Long: "mapchoice", Type: decl.TMapSS, Choices: []string{"k:a", "k:b"}},
 	}}
 	cmd := &decl.Cmd{Field: "Cmd", Name: "cmd", Opts: []*decl.Opt{{Field: "Z", Short: "z", Long: "zed", Type: decl.TBool}},
@@ -132,7 +133,7 @@ var c04Tokens = []string{
 	"", "-", "--", "---", "-a", "-s", "-sval", "-s=", "-s=v", "--str", "--str=", `--str="q"`, `--str="`, "-i", "-i5", "-i=x", "-5", "-i-5",
 	"-m", "-mk:1", "-mk", "-mk:x", "-lx", "-c", "-c=1", "-k", "-e13", "-e12", "-Ubad", "-Uok", "-P", "nope", "-Cx", "-Cz", "-O", "-O=1",
 	"-é", "-aé5", "-B", "--boolchoice", "--help", "-h", "--=x", "-=", `-"`, "cmd", "7", "w", "-z", "--all=1", "-a\xff", "\xff", "--unk", "-x",
-	"-r", "--refuse", "-ar", "é1", "añadir", "日本語", "cmdé", "usage", "--optbad", "dbg", "--sink=x", "--nilcb=x", "--mapchoice=net", "--mapchoice=k:a",
+	"-r", "--refuse", "-ar", "é1", "añadir", "日本語", "cmdé", "usage", "--optbad", "dbg", "--sink=x", "--nilcb=x", "--varcb=x", "--mapchoice=net", "--mapchoice=k:a",
 	"--levelkeys=k:v", "--levelvals=k:v", "--pints=-3", "-v\x00", "--50%off",
 	"x234567890123456789012345678901", "x2345678901234567890123456789012", "x23456789012345678901234567890123", // 31, 32, 33 characters
 	"y234567890123456789012345678901234567890123456789012345678901234", "y2345678901234567890123456789012345678901234567890123456789012345", // 64, 65
